@@ -11,7 +11,7 @@ import traceback
 from sim import seams
 from sim.core import Rng, RunResult, Violation, derive, ddmin, digest_of, jdump
 
-RUN_WATCHDOG_S = float(os.environ.get('VERIF_RUN_WATCHDOG', '30'))
+RUN_WATCHDOG_S = float(os.environ.get('VERIF_RUN_WATCHDOG', '120'))
 
 
 class WatchdogTimeout(BaseException):
